@@ -330,8 +330,8 @@ pub fn child(tier: &str) {
     // long runs: step limits and program lengths around 2^8 and 2^16 (a narrow step counter or index
     // would wrap there), on a flat program and on a bounded loop (exec dup of a block that ends in exec dup)
     {
-        let flat_lens: Vec<usize> = if quick { vec![255, 256, 257, 300] } else { vec![255, 256, 257, 300, 65535, 65536, 65537] };
-        let limits: Vec<usize> = vec![0, 1, 254, 255, 256, 257, 258, 299, 300, 301, 511, 512, 513, 65534, 65535, 65536, 65537, 65538, 1_000_000];
+        let flat_lens: Vec<usize> = if quick { (9usize..=70).chain([97, 255, 256, 257, 300]).collect() } else { (9usize..=300).chain([1009, 65535, 65536, 65537]).collect() };
+        let limits: Vec<usize> = vec![0, 1, 36, 37, 38, 96, 97, 98, 254, 255, 256, 257, 258, 299, 300, 301, 511, 512, 513, 1008, 1009, 1010, 65534, 65535, 65536, 65537, 65538, 1_000_000];
         let mut jobs: Vec<(RState, usize, String)> = vec![];
         for &n in &flat_lens {
             let mut r = RState::empty([usize::MAX; 4]);
